@@ -24,8 +24,8 @@ func init() {
 	operations["rng"] = opRng
 	operations["rngs"] = opRngs
 	operations["fs.parse"] = opFsParse
-	generators["C03"] = genSeqStrings
-	generators["C04"] = genSeqStrings
+	generators["C03"] = func(r *Rand, n int, t bool, emit func(string)) { genSeqStrings(r, n, t, false, emit) }
+	generators["C04"] = func(r *Rand, n int, t bool, emit func(string)) { genSeqStrings(r, n, t, true, emit) }
 	generators["C08"] = genC08
 	generators["C09"] = genC09
 	generators["C10"] = genC10
